@@ -4,7 +4,8 @@
    Gen/C11_Tables.v (gen_tmap, gen_conn_tmap, gen_tcp_statuses, socket constants),
    specification (kernel printers, demanded rows): C11/Spec.v.
    [current] is the code as it is now; [before_repairs] the code before the fixes d36edd1 (get_all_inodes keeps
-   every holder) and 9cf9292 (the UNIX name is cut after the single blank that follows the inode).
+   every holder), 9cf9292 (the UNIX name is cut after the single blank that follows the inode) and 0e98900
+   (/proc/net/unix is read with newline="\n": only LF ends a record).
    [o : ipv6_oracle] = the host's IPv6 support (does inet_ntop(AF_INET6) work; what supports_ipv6() answers);
    [ipv6_ok] = both yes.  [*_adds] = the sequence of ret.add() calls, the public functions return [as_set] of it;
    [*_log] = the /proc/net files handed to open_text(). *)
@@ -164,10 +165,11 @@ Proof. exact ipv6_unsupported. Qed.
 Print Assumptions C11_ipv6_unsupported.
 
 (* ---- the same statements for either variant of the code and any host on which the IPv6 branch cannot raise
-   ValueError: before the repairs exactly two classes had to be excluded (UNIX socket held by two processes;
-   UNIX name starting with white space) *)
+   ValueError: before the repairs exactly these classes had to be excluded: a UNIX socket held by two processes
+   (v_merge), a UNIX name starting with white space (v_exact), and -- [unix_guard] -- a CR anywhere in the unix file
+   (v_lf) / str-only white space anywhere in a unix record rather than only in its fixed-format part (v_exact) *)
 Theorem C11_system_wide_any_variant : forall v le o st kind,
-  wf_state st = true -> files_text_safe le st = true -> In kind kinds ->
+  wf_state st = true -> files_text_safe le st = true -> unix_guard v st = true -> In kind kinds ->
   o_ntop6 o = true \/ o_supported o = false ->
   (covers_unix kind = true -> (v_merge v = true \/ unix_unshared st = true)
                               /\ (v_exact v = true \/ no_lead_ws st = true)) ->
@@ -179,7 +181,7 @@ Proof. exact system_wide. Qed.
 Print Assumptions C11_system_wide_any_variant.
 
 Theorem C11_per_process_any_variant : forall v le o st p kind,
-  wf_state st = true -> files_text_safe le st = true -> wf_kproc p = true -> p_visible p = true ->
+  wf_state st = true -> files_text_safe le st = true -> unix_guard v st = true -> wf_kproc p = true -> p_visible p = true ->
   In kind kinds -> o_ntop6 o = true \/ o_supported o = false ->
   (covers_unix kind = true -> v_exact v = true \/ no_lead_ws st = true) ->
   exists adds, proc_net_connections_adds v le o (k_files le st) (p_pid p) (to_listing p) kind = Val adds
@@ -214,7 +216,8 @@ Print Assumptions C11_unix_line_runtime_error.
 Theorem C11_unix_junk_lines_change_nothing : forall v fam lk filt items,
   forallb uitem_ok items = true ->
   v_exact v = true \/ forallb (fun u => negb (path_lead_ws u)) (socks_of items) = true ->
-  text_safe (k_ufile_items items) = true -> text_safe (k_ufile (socks_of items)) = true ->
+  forallb (fun i => line_guard v (k_uitem i)) items = true ->
+  v_lf v = true \/ (contains 13 (k_ufile_items items) = false /\ contains 13 (k_ufile (socks_of items)) = false) ->
   exists rows, process_unix v (Some (k_ufile_items items)) fam lk filt = Val rows
                /\ process_unix v (Some (k_ufile (socks_of items))) fam lk filt = Val rows.
 Proof. exact unix_junk_lines_change_nothing. Qed.
@@ -249,9 +252,46 @@ Print Assumptions C11_ipv6_unsupported_example.
 Theorem C11_unix_items_example :
   let items := [USock (ex_unix (bs "600") (bs "/tmp/a b") UStream);
                 UJunk (bs "000000000000000000000000000000000000000000000000000000"); UJunk []] in
-  forallb uitem_ok items = true /\ text_safe (k_ufile_items items) = true /\ length (socks_of items) = 1%nat.
+  forallb uitem_ok items = true /\ forallb (fun i => line_guard current (k_uitem i)) items = true
+  /\ length (socks_of items) = 1%nat.
 Proof. exact unix_items_example. Qed.
 Print Assumptions C11_unix_items_example.
+
+(* ---- UNIX names: every byte except LF and NUL.  A state whose shared UNIX socket is bound to
+   " \r\x1c<NBSP><LINE SEPARATOR>\t\xff x \x1f" is in the domain of the theorems above, and the name comes back whole;
+   so does "/tmp/a\rb c" *)
+Theorem C11_unix_odd_names :
+  let st := ex_state true name_odd in
+  wf_state st = true /\ files_text_safe true st = true
+  /\ (exists rows, net_connections_adds current true ipv6_ok (k_files true st) (to_procs (k_procs st)) (bs "unix") = Val rows
+                   /\ map r_laddr rows = [APath name_odd; APath name_odd; APath name_odd; APath (bs "@abstract name")])
+  /\ (exists rows, net_connections_adds current true ipv6_ok (k_files true (ex_state false name_cr))
+                                         (to_procs (k_procs (ex_state false name_cr))) (bs "unix") = Val rows
+                   /\ map r_laddr rows = [APath name_cr; APath (bs "@abstract name")]).
+Proof. exact unix_odd_names. Qed.
+Print Assumptions C11_unix_odd_names.
+
+(* the code before 0e98900 (universal newlines): the CR in "/tmp/a\rb c" split the record and the whole call
+   raised RuntimeError where two rows are demanded *)
+Theorem C11_unix_cr_refuted :
+  exists st, wf_state st = true /\ files_text_safe true st = true
+             /\ length (spec_sys (bs "unix") st) = 2%nat
+             /\ net_connections_adds before_0e98900 true ipv6_ok (k_files true st) (to_procs (k_procs st)) (bs "unix")
+                = Exc RuntimeError.
+Proof. exact unix_cr_refuted. Qed.
+Print Assumptions C11_unix_cr_refuted.
+
+(* the excluded class, precisely: a name holding LF.  The kernel prints it raw, so the record is split: with a blank
+   in the tail the call fails with RuntimeError, without one the tail is skipped and the name is cut at the LF *)
+Theorem C11_unix_name_with_lf_splits :
+  let u1 := ex_unix (bs "600") (bs "/tmp/a" ++ [10] ++ bs "b c") UStream in
+  let u2 := ex_unix (bs "600") (bs "/tmp/a" ++ [10] ++ bs "b") UStream in
+  wf_usock u1 = false /\ wf_usock u2 = false
+  /\ process_unix current (Some (k_ufile [u1])) 1 (fun _ => None) None = Exc RuntimeError
+  /\ exists rows, process_unix current (Some (k_ufile [u2])) 1 (fun _ => None) None = Val rows
+                  /\ map r_laddr rows = [APath (bs "/tmp/a")].
+Proof. exact unix_name_with_lf_splits. Qed.
+Print Assumptions C11_unix_name_with_lf_splits.
 
 (* ---- the repaired defects: the code before the repairs really failed on the two excluded classes ... *)
 Theorem C11_unix_shared_refuted :
